@@ -171,6 +171,9 @@ def run_glb(c):
         cls.append("fixed-cells-refined")  # (threshold 1: even fully owned cells are split between two optimisations)
     kinds = {m["kind"] for m in c["modules"]}
     cls += ["kind-" + k for k in kinds]
+    if any(m["kind"] == "hard" and len(m["rects"]) == 2 and m["rects"][1][0] == m["rects"][0][0] + 1 and m["rects"][1][2] == m["rects"][0][2] + 1
+           for m in c["modules"]):
+        cls.append("hard-module-that-is-no-single-trunk-orthogon")
     if c["die"]["fixed"]:
         cls.append("with-fixed")
     if shared:
@@ -224,7 +227,11 @@ def case_s(draw):
             x0 = draw(_i(0, W - w))
             y0 = draw(_i(0, H - h))
             rects = [[x0, y0, x0 + w, y0 + h]]
-            if draw(st.booleans()):  # a second rectangle on top or to the right, inside the die
+            if kind == "hard" and x0 + w + 1 <= W and y0 + h + 1 <= H and draw(_i(0, 2)) > 0:
+                # a staircase: the second rectangle sits on top, shifted to the right so that it overhangs (no rectangle can be
+                # the trunk of the other one: the module is not a single-trunk orthogon, it is rigid all the same)
+                rects.append([x0 + 1, y0 + h, x0 + w + 1, y0 + h + 1])
+            elif draw(st.booleans()):  # a second rectangle on top or to the right, inside the die
                 if y0 + h + 1 <= H and draw(st.booleans()):
                     w2 = draw(_i(1, w))
                     rects.append([x0, y0 + h, x0 + w2, y0 + h + 1])
@@ -340,5 +347,5 @@ def extract_s(draw):
 
 def subchecks():
     return [Sub("instances", run_glb, strategy=case_s(), n_quick=400, n_thorough=8000, shrink_quick=False, shrink_thorough=True,
-                required=("returned", "kind-soft", "kind-hard", "kind-flip", "with-fixed", "shared-cell"), case_timeout=300),
+                required=("returned", "kind-soft", "kind-hard", "kind-flip", "with-fixed", "shared-cell", "hard-module-that-is-no-single-trunk-orthogon"), case_timeout=300),
             Sub("extract", run_extract, strategy=extract_s(), n_quick=1500, n_thorough=30000, required=("mirrored", "two-rectangles"))]
